@@ -45,10 +45,41 @@ def check(rep, text, lay, groups):
     return len(exp)
 
 
+SHORT_BLOCKS = ['N2', 'S2', 'E2', 'W2', 'NE', 'NW', 'SE', 'SW', 'N½', 'W½', 'NE¼', 'N/2', 'L1', 'ALL', 'Lot 1']
+
+
+def short_block_desc(r):
+    """descriptions whose blocks are the shortest legitimate ones (bare halves and quarters, 'L1'); in the description-first
+    layouts a short block is joined to its section by the documented connector 'of' (the library tells Twp/Rge-Sec-desc from
+    Twp/Rge-desc-Sec by the length of the text between the first Twp/Rge and the first section word, connector included)"""
+    g = gen.rand_abs_desc(r, 2, 2, 2)
+    g2 = [(t, ns, rr, ew, [(its, r.choice(SHORT_BLOCKS) if r.chance(2, 3) else b) for its, b in sgs]) for (t, ns, rr, ew, sgs) in g]
+    lay = r.choice(gen.LAYOUTS)
+    if lay in ('TRS_desc', 'S_desc_TR'):
+        return gen.render_desc(g2, lay, r), lay, g2
+    parts = []
+    for (t, ns, rr, ew, sgs) in g2:
+        tr = r.choice(gen.twprge_spellings(t, ns, rr, ew))
+        body = r.choice([', ', '; ', '\n', ',\n']).join(b + ' of ' + gen.render_sec_group(its, r) for its, b in sgs)
+        parts.append(tr + r.choice([', ', '\n', ' ', ': ']) + body if lay == 'TR_desc_S'
+                     else body + r.choice([', ', '\n', '; ', ',\n']) + tr)
+    return r.choice(['\n', '; ', '\n\n', ', ']).join(parts), lay, g2
+
+
 def run(ctx):
     rep = ctx.rep
     rng = Rng(ctx.seed, 1)
     items = []
+    for i in range(ctx.budget(200, 10000)):
+        r = rng.fork(1000000 + i)
+        text, lay, groups = short_block_desc(r)
+        n = safely(rep, 'layout (short blocks)', check, text, lay, groups) or 0
+        rep.count()
+        if n >= 2:
+            rep.nontrivial(text)
+        rep.dist('c01_short_blocks', lay)
+        if i % 4 == 0:
+            items.append(descs.corr_item(text))
     for i in range(ctx.budget(450, 30000)):
         r = rng.fork(i)
         text, lay, groups = descs.structured(r)
